@@ -508,10 +508,51 @@ fn identity_twin_templates(rep: &mut Report) {
     }
 }
 
+/// C07: in a chain of one operator the left operand - a whole application, its failure included - is finished before the
+/// next operand is touched; and a `match` run again evaluates its candidates from the top again
+fn chain_and_rerun_templates(rep: &mut Report) {
+    use crate::ast::PRELUDE;
+    let mut cases: Vec<(String, String, Vec<i64>)> = Vec::new();
+    for (op, bad, kind) in [("/", "0", "ZeroDivision"), ("%", "0", "ZeroModulo"), ("**", "(-1)", "NegativeExponent"), ("<<", "64", "OverflowShift"), (">>", "(-1)", "OverflowShift")] {
+        cases.push((format!("ti(1, 8) {op} ti(2, hi({bad})) {op} ti(3, 2)"), format!("error:{kind}"), vec![1, 2]));
+        cases.push((format!("ti(1, 8) {op} ti(2, 1) {op} ti(3, hi({bad})) {op} ti(4, 2)"), format!("error:{kind}"), vec![1, 2, 3]));
+        cases.push((format!("ti(1, 8) {op} ti(2, 1) {op} ti(3, hi({bad}))"), format!("error:{kind}"), vec![1, 2, 3]));
+        cases.push((format!("f := () -> int {{ return ti(1, 8) {op} ti(2, hi({bad})) {op} ti(3, 2) }}; f()"), format!("error:{kind}"), vec![1, 2]));
+        cases.push((format!("c := mut 8; c {op}= ti(1, hi({bad})) {op} ti(2, 1); *c"), format!("error:{kind}"), if op == "**" { vec![1, 2] } else { vec![1, 2] }));
+    }
+    cases.push(("[ti(1, 1), ti(2, 2)][ti(3, 5)] + ti(4, 1)".into(), "error:IndexOutOfBounds".into(), vec![1, 2, 3]));
+    cases.push(("ti(1, 1) + [ti(2, 2)][ti(3, 5)] + ti(4, 1)".into(), "error:IndexOutOfBounds".into(), vec![1, 2, 3]));
+    cases.push(("[0; ti(1, 0 - 1)] + [ti(2, 1)]".into(), "error:NegativeLength".into(), vec![1]));
+    // the same match instruction run several times
+    cases.push(("pick := (x: int) -> int { return match x { ti(1, 1) => 10, ti(2, 2) => 20, ti(3, 3) => 30, => 0, } }; [pick(2), pick(1), pick(3), pick(3), pick(9)]".into(), "[20, 10, 30, 30, 0]".into(), vec![1, 2, 1, 1, 2, 3, 1, 2, 3, 1, 2, 3]));
+    cases.push(("a := mut 1; b := mut 2; pick := (x: int) -> string { return match x { *a => \"first\", *b => \"second\", => \"none\", } }; r1 := pick(2); a = 2; r2 := pick(2); b = 7; a = 0; r3 := pick(7); (r1, r2, r3)".into(), "(\"second\", \"first\", \"second\")".into(), vec![]));
+    cases.push(("out := mut [int] []; for x in [2, 1, 3, 3, 9, 2]~ { m := match x { ti(1, 1), ti(2, 2) => 10, ti(3, 3) => 30, => 0, }; out += [m]; }; *out".into(), "[10, 10, 30, 30, 0, 10]".into(), vec![1, 2, 1, 1, 2, 3, 1, 2, 3, 1, 2, 3, 1, 2]));
+    for (body, want, log) in cases {
+        let src = format!("{PRELUDE}{body}");
+        rep.evaluations += 1;
+        rep.count("chain-and-rerun-templates");
+        let run = run_real(&src, FUEL);
+        let got = match &run.outcome {
+            Outcome::Value(v) => canon(v),
+            Outcome::ExecErr(Some(k), _) => format!("error:{}", k.name()),
+            other => other.tag(),
+        };
+        if got.starts_with("panic:") && got != "panic:Panic" {
+            rep.inconclusive("template:resource-or-fuel");
+            continue;
+        }
+        let got_log = run.log.clone().unwrap_or_default();
+        if got != want || got_log != log {
+            rep.violation(&format!("c07:chain-and-rerun-template:{}", truncate(&body, 50)), &format!("`{body}` gave {got} with effect log {got_log:?}, expected {want} with {log:?}"), "diff", &format!("#template {want}\n{src}\n"));
+        }
+    }
+}
+
 pub fn run(cfg: &Cfg, rep: &mut Report, spec: &Spec) {
     let deadline = Deadline::new(cfg.budget_s);
     if spec.prop == "C07" && cfg.shard == 0 {
         short_circuit_templates(rep);
+        chain_and_rerun_templates(rep);
     }
     if spec.prop == "C12" && cfg.shard == 0 {
         dead_branch_templates(rep);
